@@ -17,14 +17,16 @@ EXTENDS Naturals, Sequences, FiniteSets, TLC
 CONSTANTS MaxSel, Wide     \* Wide = TRUE: the full ranges (thorough); FALSE: the reduced ranges (quick)
 
 Variants == {"one", "multi", "rank", "oneM", "other", "filter", "rand", "randseed", "randseedref", "filter_rand",
-             "csv", "csv_vl", "csv_rand", "xml_filter", "geojson", "geojson_rand", "geojson_v", "geojson_l", "external", "repeat", "search"}
-NeedsM == {"oneM", "other", "search"}
+             "csv", "csv_vl", "csv_rand", "xml_filter", "geojson", "geojson_rand", "geojson_v", "geojson_l", "external", "repeat", "search",
+             "search_after_modifier"}     \* search() written after another appearance word ("minimal search('f')")
+NeedsM == {"oneM", "other", "search", "search_after_modifier"}
+Searches == {"search", "search_after_modifier"}
 Fill == IF Wide THEN {"all", "none", "first", "last", "alt"} ELSE {"all", "alt", "none"}
 NL == IF Wide THEN {1, 2, 3} ELSE {1, 3}
 NM == IF Wide THEN {0, 1, 2} ELSE {0, 2}
 XC == IF Wide THEN {0, 1, 2} ELSE {0, 2}
 Extras == IF Wide THEN 0..5 ELSE {0, 3, 5}
-ExtShapes == IF Wide THEN 0..4 ELSE {0, 2, 4}
+ExtShapes == IF Wide THEN 0..5 ELSE {0, 2, 4, 5}     \* 5: the list column of external_choices under its alias spelling "list name"
 
 \* how the lists are named and labelled: plain names / names containing a dot (legal; only a recognised file extension means
 \* "from file") x plain labels / translated labels (the list then goes through itext: items carry itextId, selects read it)
@@ -45,13 +47,13 @@ GInit == /\ cfg \in [nl : NL, nm : NM, nu : {0, 1}, xc : XC, fill : Fill, inter 
          /\ sels = <<>> /\ phase = "build"
 \* a search() select makes its list inline-only; the converter refuses a list shared by search and non-search selects
 UsesMPlain(s) == \E i \in 1..Len(s) : s[i] \in {"oneM", "other"}
-UsesSearch(s) == \E i \in 1..Len(s) : s[i] = "search"
+UsesSearch(s) == \E i \in 1..Len(s) : s[i] \in Searches
 AddSelect(v) ==
   /\ phase = "build" /\ Len(sels) < MaxSel
   /\ (v \in NeedsM => cfg.nm > 0)
-  /\ (v = "search" => ~UsesMPlain(sels)) /\ (v \in {"oneM", "other"} => ~UsesSearch(sels))
+  /\ (v \in Searches => ~UsesMPlain(sels)) /\ (v \in {"oneM", "other"} => ~UsesSearch(sels))
   /\ (v = "external" => cfg.ext > 0)
-  /\ (v = "search" => ~IsItext(cfg))                       \* (inline items of a translated list: out of this model)
+  /\ (v \in Searches => ~IsItext(cfg))                       \* (inline items of a translated list: out of this model)
   /\ sels' = Append(sels, v) /\ UNCHANGED <<cfg, phase>>
 Close == phase = "build" /\ Len(sels) > 0 /\ (cfg.ext > 0 => \E i \in 1..Len(sels) : sels[i] = "external")
          /\ phase' = "done" /\ UNCHANGED <<cfg, sels>>
